@@ -52,7 +52,7 @@ fn c15_relative_distance_monotone_on_grid() {
 	kani::cover!(d1 > min && d2 < max && d1 < d2, "w:inside");
 }
 
-// @h prop=C15 tier=quick kind=main timeout=280
+// @h prop=C15 tier=quick kind=main timeout=600
 // @bounds emitter and listener on the x axis at symbolic small-integer coordinates, identity orientation, strength 0 (no panning), Linear attenuation, range (1, 4): distance <= 1 -> the frame passes bit-exactly; distance >= 4 -> exact silence
 // @funcs SpatialData::spatialize, SpatialTrackDistances::relative_distance, Easing::apply, <Decibels as Tweenable>::interpolate, Decibels::as_amplitude, glam::Vec3::{sub,length}
 // @assume powf contract stub (not reached at the two ends: 0 dB and -60 dB are special-cased)
@@ -75,7 +75,7 @@ fn c15_attenuation_end_points_and_unpanned_at_strength_0() {
 	std::mem::forget(sd);
 }
 
-// @h prop=C15 tier=quick kind=main timeout=280
+// @h prop=C15 tier=quick kind=main timeout=600
 // @bounds no attenuation, strength 1, identity orientation, listener at the origin, emitter on the x axis at +-k (k = 1..8) or ON an ear point (+-0.1) or at the listener: each ear gain is finite and in [0, 1]; the ear on the emitter's side gets at least the other's gain
 // @funcs SpatialData::spatialize, listener_ear_positions, listener_ear_directions, glam::{Quat::mul_vec3, Vec3::normalize_or_zero, Vec3::dot}
 // @assume f32::sin_cos replaced by its native values at +-pi/16 (the ear angle)
@@ -107,7 +107,7 @@ impl KvSoundTrait for KvDc {
 	fn finished(&self) -> bool { false }
 }
 
-// @h prop=C15,C08,C11 tier=quick kind=main timeout=280
+// @h prop=C15,C08,C11 tier=quick kind=main timeout=600
 // @bounds real Track::process of a spatial track (strength 0, no attenuation) with a DC probe sound over a real Listeners storage of capacity 1: the listener id never resolved, resolves, or is STALE (its slot reused by a newer listener) (symbolic); one 1-frame chunk
 // @funcs Track::process (spatialization branch), Info::listener_info, Arena::get
 // @catches a spatial track whose listener does not exist (never did, dropped, or slot reused) still producing sound
